@@ -606,6 +606,11 @@ def g_bytes(rng, big=300):
     if r < 0.24:
         return bytes([rng.randrange(256)])
     if r < 0.3:
+        if big >= 300 and r < 0.265:
+            # round 8 (C09O): both sides of the widths a binary column may be declared with (VARBINARY(1024), 2048, 4096)
+            n = rng.choice([1023, 1024, 1025, 2047, 2048, 2049, 4095, 4096, 4097])
+            blk = bytes(rng.randrange(256) for _ in range(61))
+            return (blk * (n // 61 + 1))[:n]
         return bytes(rng.randrange(256) for _ in range(rng.randint(big // 2, big)))
     if r < 0.4:
         return rng.choice([b'\x00', b'\x00' * 16, b'\xff' * 32, b'\x80'])
@@ -1172,7 +1177,11 @@ def client_history(ctx, rng, der, hid, n_calls):
             return None
         if r < 0.35:
             return []
-        return rng.sample(members, rng.randint(1, 4))
+        ms = rng.sample(members, rng.randint(1, 4))
+        if rng.random() < 0.25:
+            # round 8 (C05O): a list of flags denotes their union; naming a flag twice must not change the mask
+            ms.insert(rng.randrange(len(ms) + 1), rng.choice(ms))
+        return ms
 
     def g_policy():
         return None if (wver >= (2, 0) or rng.random() < 0.6) else rng.choice(['default', 'site-policy'])
